@@ -1,0 +1,165 @@
+//go:build verif
+
+package adt
+
+// Contracts for the verification machinery in /verif (comment-only file;
+// excluded from every build without the "verif" tag).
+
+//@ bvtypes Kind defaultMode
+
+//@ invariant staticBools: StaticBoolTrue != nil && StaticBoolFalse != nil && StaticBoolTrue.B && !StaticBoolFalse.B
+
+// ---- operator classification (spec vocabulary) ----
+
+//@ spec func ordering(op Op) bool { op == LessThanOp || op == LessEqualOp || op == GreaterThanOp || op == GreaterEqualOp }
+//@ spec func lowerOp(op Op) bool { op == GreaterThanOp || op == GreaterEqualOp }
+//@ spec func boundOp(op Op) bool { ordering(op) || op == EqualOp || op == NotEqualOp || op == MatchOp || op == NotMatchOp }
+//@ spec func sameDirOrdering(a, b Op) bool { ordering(a) && ordering(b) && lowerOp(a) == lowerOp(b) }
+
+//@ func opInfo
+//@   requires boundOp(op)
+//@   ensures  lowerOp(op) ==> norm == 1
+//@   ensures  ordering(op) && !lowerOp(op) ==> norm == -1
+//@   ensures  op == GreaterThanOp  ==> cmp == GreaterEqualOp
+//@   ensures  op == GreaterEqualOp ==> cmp == GreaterThanOp
+//@   ensures  op == LessThanOp     ==> cmp == LessEqualOp
+//@   ensures  op == LessEqualOp    ==> cmp == LessThanOp
+//@   ensures  !ordering(op) ==> cmp == op && norm != 1 && norm != -1
+//@   ensures  op == NotEqualOp ==> norm == 0
+//@   ensures  op == EqualOp ==> norm == 4
+//@   ensures  op == MatchOp ==> norm == 2
+//@   ensures  op == NotMatchOp ==> norm == 3
+
+// ---- OpContext error slot and boolean construction ----
+
+//@ func (*OpContext).HasErr
+//@   ensures result == (c.errs != nil)
+
+//@ func (*OpContext).Err
+//@   ensures result == old(c.errs) && c.errs == nil
+//@   assigns c.errs
+
+//@ func (*OpContext).NewBool
+//@   ensures old(c.errs) == nil ==> isType(result, *Bool) && result.(*Bool) != nil && result.(*Bool).B == b
+//@   ensures old(c.errs) != nil ==> isType(result, *Bottom) && result.(*Bottom) == old(c.errs)
+//@   assigns c.errs
+
+// C06: the six comparison operators are the order relation on r = sign(a-b).
+//@ func cmpTonode
+//@   requires r == -1 || r == 0 || r == 1
+//@   requires c.errs == nil
+//@   ensures  isType(result, *Bool)
+//@   ensures  op == LessThanOp     ==> result.(*Bool).B == (r <  0)
+//@   ensures  op == LessEqualOp    ==> result.(*Bool).B == (r <= 0)
+//@   ensures  op == EqualOp        ==> result.(*Bool).B == (r == 0)
+//@   ensures  op == NotEqualOp     ==> result.(*Bool).B == (r != 0)
+//@   ensures  op == GreaterEqualOp ==> result.(*Bool).B == (r >= 0)
+//@   ensures  op == GreaterThanOp  ==> result.(*Bool).B == (r >  0)
+//@   assigns c.errs
+
+// ---- C04: default modes ----
+
+//@ func mode
+//@   ensures !hasDefault ==> result == maybeDefault
+//@   ensures hasDefault && marked ==> result == isDefault
+//@   ensures hasDefault && !marked ==> result == notDefault
+
+//@ func combineDefault
+//@   requires a <= notDefault && b <= notDefault
+//@   ensures  (result == isDefault)    <==> (a != notDefault && b != notDefault && (a == isDefault || b == isDefault))
+//@   ensures  (result == notDefault)   <==> (a == notDefault || b == notDefault)
+//@   ensures  (result == maybeDefault) <==> (a == maybeDefault && b == maybeDefault)
+
+//@ func combineDefault2
+//@   requires a <= notDefault && b <= notDefault
+//@   ensures  result == ite(ite(dropsDefaultA, maybeDefault, a) > ite(dropsDefaultB, maybeDefault, b), ite(dropsDefaultA, maybeDefault, a), ite(dropsDefaultB, maybeDefault, b))
+//@   ensures  (result == isDefault) <==> ((dropsDefaultA || a != notDefault) && (dropsDefaultB || b != notDefault) && ((!dropsDefaultA && a == isDefault) || (!dropsDefaultB && b == isDefault)))
+
+// ---- C03: bounds denote sets of atoms (vocabulary taken from the property
+// statement and doc/ref/spec.md §Bounds, not from the code) ----
+//
+// An atom is (ak, ai, af, as, ab): its kind (one of the six scalar kinds), its
+// numeric value ai+af (integer part and fraction 0 <= af < 1, see
+// /verif/contracts/external/apd.spec for why numbers are carried this way), its
+// string/bytes content and its boolean value.
+
+//@ spec func matches(pattern string, s string) bool
+//@ spec func validAtom(ak Kind, ai int, af real) bool { (ak == NullKind || ak == BoolKind || ak == IntKind || ak == FloatKind || ak == StringKind || ak == BytesKind) && fracOK(af) && (ak == IntKind ==> af == 0.0) }
+//@ spec func cmpOK(op Op, c int) bool { (op == LessThanOp && c < 0) || (op == LessEqualOp && c <= 0) || (op == GreaterThanOp && c > 0) || (op == GreaterEqualOp && c >= 0) || (op == EqualOp && c == 0) || (op == NotEqualOp && c != 0) }
+//@ spec func cmpOp(op Op) bool { ordering(op) || op == EqualOp || op == NotEqualOp }
+//@ spec func propOp(op Op) bool { ordering(op) || op == NotEqualOp || op == MatchOp || op == NotMatchOp }
+
+//@ spec func isNumV(v Value) bool { isType(v, *Num) && v.(*Num) != nil }
+//@ spec func isStrV(v Value) bool { isType(v, *String) && v.(*String) != nil }
+//@ spec func isBytesV(v Value) bool { isType(v, *Bytes) && v.(*Bytes) != nil }
+//@ spec func isBoolV(v Value) bool { isType(v, *Bool) && v.(*Bool) != nil }
+//@ spec func isNullV(v Value) bool { isType(v, *Null) && v.(*Null) != nil }
+//@ spec func isBottomV(v Value) bool { isType(v, *Bottom) && v.(*Bottom) != nil }
+//@ spec func scalarV(v Value) bool { isNumV(v) || isStrV(v) || isBytesV(v) || isBoolV(v) || isNullV(v) }
+//@ spec func numIP(v Value) int { v.(*Num).X.ip }
+//@ spec func numFP(v Value) real { v.(*Num).X.fp }
+// sign of (ai+af) - value of number v
+//@ spec func cmpAtomNum(ai int, af real, v Value) int { decCmp(ai, af, numIP(v), numFP(v)) }
+//@ spec func cmpNums(l Value, r Value) int { decCmp(numIP(l), numFP(l), numIP(r), numFP(r)) }
+//@ spec func strVal(v Value) string { v.(*String).Str }
+//@ spec func bytesVal(v Value) string { bytesStr(v.(*Bytes).B) }
+// a concrete number is a finite decimal of kind int or float; an int has an integral value
+//@ spec func wfV(v Value) bool { isNumV(v) ==> (v.(*Num).K == IntKind || v.(*Num).K == FloatKind) && v.(*Num).X.Form == apd.Finite && wfDec(v.(*Num).X) && (v.(*Num).K == IntKind ==> numFP(v) == 0.0) }
+
+// the kind a value / a bound restricts to ("a bound also restricts the value to
+// the kind of its operand - any number for a numeric operand - except that
+// !=null admits every non-null value")
+//@ spec func valueKind(v Value) Kind { ite(isNumV(v), v.(*Num).K, ite(isStrV(v), StringKind, ite(isBytesV(v), BytesKind, ite(isBoolV(v), BoolKind, ite(isNullV(v), NullKind, BottomKind))))) }
+//@ spec func boundKind(b *BoundValue) Kind { ite(isNumV(b.Value), NumberKind, ite(isNullV(b.Value) && b.Op == NotEqualOp, TopKind &^ NullKind, valueKind(b.Value))) }
+
+// atom (ak, ai, af, as, ab) satisfies bound b
+//@ spec func satBound(b *BoundValue, ak Kind, ai int, af real, as string, ab bool) bool {
+//@     ite(isNumV(b.Value), (ak == IntKind || ak == FloatKind) && cmpOK(b.Op, cmpAtomNum(ai, af, b.Value)),
+//@     ite(isStrV(b.Value), ak == StringKind && ite(b.Op == MatchOp, matches(strVal(b.Value), as), ite(b.Op == NotMatchOp, !matches(strVal(b.Value), as), cmpOK(b.Op, lexcmp(as, strVal(b.Value))))),
+//@     ite(isBytesV(b.Value), ak == BytesKind && cmpOK(b.Op, lexcmp(as, bytesVal(b.Value))),
+//@     ite(isBoolV(b.Value), ak == BoolKind && ((b.Op == NotEqualOp && ab != b.Value.(*Bool).B) || (b.Op == EqualOp && ab == b.Value.(*Bool).B)),
+//@     ite(isNullV(b.Value), (b.Op == NotEqualOp && ak != NullKind) || (b.Op == EqualOp && ak == NullKind),
+//@     false))))) }
+
+// result of comparing two concrete scalars (spec.md §Comparison operators)
+//@ spec func sameClass(l Value, r Value) bool { (isNumV(l) && isNumV(r)) || (isStrV(l) && isStrV(r)) || (isBytesV(l) && isBytesV(r)) || (isBoolV(l) && isBoolV(r)) || (isNullV(l) && isNullV(r)) }
+
+//@ func (*OpContext).NewErrf
+//@   assumed A-int: formats a message and allocates a *Bottom (context.go); message text is not part of any property
+//@   ensures result != nil && fresh(result)
+
+//@ func errIncompatibleBounds
+//@   ensures result != nil
+
+//@ func BinOpBool
+//@   assumed A-int: BinOp with c.src cleared; the comparison arms of BinOp (cmpTonode over Decimal.Cmp / strings.Compare / bytes.Compare, mismatching operands give an error value, i.e. false) — cmpTonode itself is verified
+//@   requires c.errs == nil && scalarV(left) && scalarV(right) && wfV(left) && wfV(right)
+//@   ensures isNumV(left) && isNumV(right) && cmpOp(op) ==> result == cmpOK(op, cmpNums(left, right))
+//@   ensures isStrV(left) && isStrV(right) && cmpOp(op) ==> result == cmpOK(op, lexcmp(strVal(left), strVal(right)))
+//@   ensures isBytesV(left) && isBytesV(right) && cmpOp(op) ==> result == cmpOK(op, lexcmp(bytesVal(left), bytesVal(right)))
+//@   ensures isStrV(left) && isStrV(right) && op == MatchOp ==> result == matches(strVal(right), strVal(left))
+//@   ensures isStrV(left) && isStrV(right) && op == NotMatchOp ==> result == !matches(strVal(right), strVal(left))
+//@   ensures isBoolV(left) && isBoolV(right) && op == EqualOp ==> result == (left.(*Bool).B == right.(*Bool).B)
+//@   ensures isBoolV(left) && isBoolV(right) && op == NotEqualOp ==> result == (left.(*Bool).B != right.(*Bool).B)
+//@   ensures isNullV(left) && isNullV(right) && op == EqualOp ==> result
+//@   ensures isNullV(left) && isNullV(right) && op == NotEqualOp ==> !result
+//@   ensures !sameClass(left, right) && (ordering(op) || op == EqualOp || op == MatchOp || op == NotMatchOp) ==> !result
+//@   ensures !sameClass(left, right) && op == NotEqualOp && (isNullV(left) || isNullV(right)) ==> result
+//@   ensures c.errs == nil
+//@   assigns c.errs, c.src
+
+// (P) C03. Preconditions are derived from the call sites (conjunct.go
+// insertValueConjunct, eval.go getValidators): both bounds were inserted into the
+// node, so n.kind was narrowed by each bound's kind (updateNodeType precedes the
+// BoundValue case) and bound operands are concrete scalars (compile.go).
+//@ func SimplifyBounds
+//@   strings abstract
+//@   requires ctx != nil && x != nil && y != nil && ctx.errs == nil
+//@   requires propOp(x.Op) && propOp(y.Op)
+//@   requires scalarV(x.Value) && scalarV(y.Value) && wfV(x.Value) && wfV(y.Value)
+//@   requires k &^ boundKind(x) == 0 && k &^ boundKind(y) == 0
+//@   ensures [nofab] result == nil || (isType(result, *BoundValue) && (result.(*BoundValue) == x || result.(*BoundValue) == y)) || isBottomV(result)
+//@   ensures [keepx] isType(result, *BoundValue) && result.(*BoundValue) == x ==> forall ak Kind, ai int, af real, as string, ab bool :: validAtom(ak, ai, af) && ak & k != 0 && satBound(x, ak, ai, af, as, ab) ==> satBound(y, ak, ai, af, as, ab)
+//@   ensures [keepy] isType(result, *BoundValue) && result.(*BoundValue) == y ==> forall ak Kind, ai int, af real, as string, ab bool :: validAtom(ak, ai, af) && ak & k != 0 && satBound(y, ak, ai, af, as, ab) ==> satBound(x, ak, ai, af, as, ab)
+//@   ensures [bottom] isBottomV(result) ==> forall ak Kind, ai int, af real, as string, ab bool :: validAtom(ak, ai, af) && ak & k != 0 ==> !(satBound(x, ak, ai, af, as, ab) && satBound(y, ak, ai, af, as, ab))
+//@   assigns ctx.errs, ctx.src
